@@ -83,6 +83,9 @@ def check(F, rep, tier):
     if rep.anchor("R11.5", "<PEP440 as FromStr>::from_str", fs):
         parsers.analyse_from_str(F, fs[0], rep, "R11.5", "crate::version::pep440::parser::")
     rep.extra["abstract_assignments_evaluated"] = evals
+    # ---- R11.6 dependency: text local segments enter the comparison key through LocalSegment::try_new_str, i.e. through the
+    # pep440_local_str sanitiser preset; a length cap there makes long segments that differ late compare equal
+    core.borrow(F, rep, "c07", "C07", "R11.6", ("preset-config:pep440_local_str",), "the local-segment sanitiser preset does not shorten segments")
     return core.finish(rep, explanation=EXPL, assumptions=ASSUME, trusted=TRUST)
 
 def release_rule(F, rep, c, relkey):
